@@ -1,5 +1,29 @@
 import SurfModel.Proto
 import SurfModel.TextLayout
-def main : IO Unit := SurfModel.Proto.serve fun
-  | "c09" :: rest => SurfModel.TextLayout.handle rest
-  | _ => "bad-op"
+import SurfModel.TextTty
+/-! Driver for C09: `c09 table command …` / `c09 ttys …` → `SurfModel.TextTty` (keeps the installed command
+automaton), every other `c09 …` → `SurfModel.TextLayout.handle`. -/
+open SurfModel
+
+partial def loopC09 (rows : Option (Array Automata.Wire.Row)) (h out : IO.FS.Stream) : IO Unit := do
+  let line ← h.getLine
+  if line.isEmpty then return ()
+  match Proto.tokens line with
+  | "c09" :: "table" :: rest =>
+    let (rows', answer) := TextTty.handle rows ("table" :: rest)
+    out.putStrLn answer
+    loopC09 rows' h out
+  | "c09" :: "ttys" :: rest =>
+    out.putStrLn (TextTty.handle rows ("ttys" :: rest)).2
+    loopC09 rows h out
+  | "c09" :: rest =>
+    out.putStrLn (TextLayout.handle rest)
+    loopC09 rows h out
+  | _ =>
+    out.putStrLn "bad-op"
+    loopC09 rows h out
+
+def main : IO Unit := do
+  let out ← IO.getStdout
+  loopC09 none (← IO.getStdin) out
+  out.flush
